@@ -444,21 +444,15 @@ def _add_comments(rules):
 
 @contextlib.contextmanager
 def commented_rulebook():
-    from annet import rulebook
-    orig = rulebook.get_rulebook
-
-    def patched(hw):
+    def patched(hw, real):
         if hw not in _commented:
-            rb = dict(orig(hw))
+            rb = dict(real(hw))
             rb["patching"] = copy.deepcopy(rb["patching"])
             _add_comments(rb["patching"])
             _commented[hw] = rb
         return _commented[hw]
-    rulebook.get_rulebook = patched
-    try:
+    with env.rulebook_override(patched):
         yield
-    finally:
-        rulebook.get_rulebook = orig
 
 
 # ---------------------------------------------------------------------------------------------------
